@@ -60,14 +60,34 @@ def gen_case(rng, maxops, nmax, base):
     n = max(2, min(n, nmax))
     offs = gen_offsets(rng, n, style)
     n = len(offs)
-    ids = list(range(n))
+    allids = list(range(n))
+    # destructors may also ALLOCATE (GC_Set from inside a sweep's finaliser loop or a removal): the
+    # addresses they allocate (targets) are never allocated by the history itself and never deleted
+    # by a destructor; some of them lie outside the address window of everything else
+    ntgt = rng.choice([0, 0, 1, 2, 3]) if n >= 4 else 0
+    targets = allids[n - ntgt:] if ntgt else []
+    ids = allids[:n - ntgt]
+    for t in targets:
+        r = rng.random()
+        if r < .3:
+            cand = max(offs) + GAP * rng.randrange(1, 50) + rng.choice([0, 55 * 23, L5])
+        elif r < .5 and min(offs[:n - ntgt]) >= 2 * GAP:
+            cand = rng.randrange(0, min(offs[:n - ntgt]) - GAP)
+        else:
+            cand = offs[t]
+        if spaced([o for i, o in enumerate(offs) if i != t], cand):
+            offs[t] = cand
     pown = rng.choice([0, 0.1, 0.3, 0.6])
+    pspw = rng.choice([0.2, 0.5, 0.9]) if targets else 0
     objs = []
-    for k in ids:
-        own = []
-        if rng.random() < pown:
+    for k in allids:
+        own, spw = [], []
+        if k in ids and rng.random() < pown:
             own = [rng.choice(ids) for _ in range(rng.choice([1, 1, 1, 2, 3]))]
-        objs.append('%d:%d%s' % (k, offs[k], (':' + '.'.join(map(str, own))) if own else ''))
+        if k in ids and rng.random() < pspw:
+            spw = ['%d%s' % (t, rng.choice(['', '', 'r'])) for t in rng.sample(targets, rng.randrange(1, len(targets) + 1))]
+        objs.append('%d:%d%s%s' % (k, offs[k], (':' + '.'.join(map(str, own))) if own or spw else '',
+                                   (':' + '.'.join(spw)) if spw else ''))
     proot = rng.choice([0, 0.1, 0.3, 0.8])
     pkeep = rng.choice([0.2, 0.5, 0.9, 1.0])      # how much of what was allocated is on the "stack"
     st = {}                                        # id -> 'm' managed/root (maybe reclaimed), 'w' raw, absent/None = free
@@ -101,7 +121,7 @@ def gen_case(rng, maxops, nmax, base):
                 st[k] = 'm' if running else 'w'    # allocated while stopped: never registered
                 recent.append(k)
         elif r < 0.62:
-            k = rng.choice(ids)
+            k = rng.choice(allids)
             if st.get(k) == 'w':
                 ops.append('x%d' % k); st[k] = None
             else:
@@ -109,7 +129,7 @@ def gen_case(rng, maxops, nmax, base):
                 if running:
                     st[k] = None
         elif r < 0.72:
-            ops.append('m%d' % rng.choice(ids))
+            ops.append('m%d' % rng.choice(allids))
         elif r < 0.82:
             if rng.random() < .5:
                 words = [x for x in recent[-30:] if rng.random() < rng.choice([0, .3, .7])]
@@ -180,8 +200,11 @@ def exhaustive_cases(base, maxlen=4):
     alpha = ['a0', 'a1', 'a2', 'A1', 'd0', 'd1', 'd2', 'c']
     res = []
     for offs in ([0, 55, 110], [4, 59, 9]):
-        for own in ({}, {0: [1], 1: [0, 2]}):
-            objs = ','.join('%d:%d%s' % (k, offs[k], (':' + '.'.join(map(str, own[k]))) if k in own else '') for k in range(3))
+        for own in ({}, {0: [1], 1: [0, 2]}, 'spawn'):
+            if own == 'spawn':   # 0's destructor allocates 3 (far above the window) and root 4 (below / colliding)
+                objs = '0:%d::3.4r,1:%d:0,2:%d,3:%d,4:%d' % (offs[0], offs[1], offs[2], offs[2] + 5500, offs[0] + 25)
+            else:
+                objs = ','.join('%d:%d%s' % (k, offs[k], (':' + '.'.join(map(str, own[k]))) if k in own else '') for k in range(3))
             for words in ('k', 'k0', 'k0.1.2'):
                 for n in range(1, maxlen + 1):
                     for seq in itertools.product(alpha, repeat=n):
@@ -202,19 +225,35 @@ def parse_case(case):
     return base, ids, off, [t for t in ops.split(' ') if t]
 
 
+def dtor_sets(case):
+    """(addresses some destructor deletes, addresses some destructor allocates)"""
+    objs = case.split('|', 1)[0].split(';', 1)[1]
+    owned, spawned = set(), set()
+    for o in objs.split(','):
+        f = o.split(':')
+        if len(f) > 2 and f[2]:
+            owned |= {int(x) for x in f[2].split('.')}
+        if len(f) > 3 and f[3]:
+            spawned |= {int(x.rstrip('r')) for x in f[3].split('.')}
+    return owned, spawned
+
+
 def admissible(case):
     """the history never allocates an address that may still be registered or raw-live, never
     del_raw's anything but a live raw object (generator rules; shrinking must keep them)"""
     try:
         base, ids, off, ops = parse_case(case)
+        owned, spawned = dtor_sets(case)
     except Exception:
         return False
+    if owned & spawned or not (owned | spawned) <= set(ids):
+        return False          # hypothesis dtors_ok of the theorems
     st, running = {}, True
     for t in ops:
         c = t[0]
         if c in 'aAw':
             k = int(t[1:])
-            if k not in off or st.get(k) is not None:
+            if k not in off or st.get(k) is not None or k in spawned:
                 return False
             st[k] = 'w' if (c == 'w' or not running) else 'm'
         elif c == 'x':
@@ -360,6 +399,8 @@ def oracle(case, impl, spec):
 def corr(case, impl, model):
     if impl == model:
         return None
+    if '!' in model:
+        return None      # the model flagged the run as outside its scope (nested collection outside a sweep)
     a, b = impl.split(' | '), model.split(' | ')
     for n, (x, y) in enumerate(zip(a, b)):
         if x != y:
@@ -369,7 +410,8 @@ def corr(case, impl, model):
 
 def nontrivial(case, impl):
     """an entry sits away from its home slot, or a destructor issued a removal (an `r` event
-    that is not the step's own del), or the registry was rehashed to a smaller size"""
+    that is not the step's own del) or an allocation (`s` event), or the registry was rehashed
+    to a smaller size"""
     ops = case.split('|', 1)[1].split(' ')
     ops = [t for t in ops if t]
     prev = None
@@ -379,6 +421,8 @@ def nontrivial(case, impl):
         ev, slots = f[1], f[9]
         op = ops[n - 1] if 0 < n <= len(ops) else ''
         if 'r' in ev and not (op.startswith('d') and ev.count('r') == 1):
+            return True
+        if 's' in ev:
             return True
         for i, s in enumerate(slots.split(',')):
             if s != '_' and s and s.split(':')[0] != str(i + 1):
@@ -421,6 +465,12 @@ def corpus(b):
         '0:0,1:8|k0 a0 d0 a0 k c a1 d0 a0 m0',
         # unaligned and foreign words on the stack; sweep without mark (teardown)
         '0:0,1:8,2:16|ku0.1 a0 a1 A2 c m0 m1 z m1 m2',
+        # destructors that allocate while a sweep runs: managed + root, one far outside the address
+        # window, one colliding with a survivor; then mem, del of the spawned ones
+        '0:0::3.4r,1:55,2:110,3:9000,4:165|k1.2 a0 a1 a2 k1 c m3 m4 d3 m3 d4 m4',
+        '0:40::3.4r,1:95:0,2:150,3:0,4:7040|k0.1.2 a0 a1 a2 k2 c m3 m4 k c m3 m4',
+        # ... and from a destructor run by an explicit del (no sweep in progress)
+        '0:0:1:3,1:55,3:165|k0.1 a0 a1 d0 m3 m1 d3 m3',
         # growth past 5 and 11 slots with roots, then shrink back
         ','.join('%d:%d' % (i, 55 * 23 * i) for i in range(14)) + '|' + ' '.join('A%d' % i for i in range(14)) + ' ' + ' '.join('d%d' % i for i in range(14)),
     ]]
@@ -432,7 +482,9 @@ def run(ctx):
         'seeded histories of alloc / alloc_root / alloc_raw / del / del_raw / mem / forced collection (scripted stack words) / '
         'sweep-only / stop / start over 2-%d objects (a few growth cases up to %d) whose addresses 8*(B+off) are scripted: off = multiples of 5*11*23*53*101 (and *197, *389) '
         'so that all homes coincide modulo every registry size, homes at the last slots (wrap-around), two homes, dense, small, mixed; '
-        'objects own other objects (their destructor issues del: removals during a sweep or during another removal, cycles allowed); '
+        'objects own other objects (their destructor issues del: removals during a sweep or during another removal, cycles allowed) and/or '
+        'allocate managed/root objects from their destructor (GC_Set while a sweep runs or inside a removal; addresses outside the current [minptr,maxptr] '
+        'and colliding with survivors; never an address a destructor deletes); '
         'threshold collections fire by themselves (the first allocation already does); generator rule: an address is re-allocated only after a '
         'top-level del/del_raw of it. A case is non-trivial when an entry sits away from its home slot, or a destructor issued a removal, or the '
         'registry shrank by rehashing; distinct = distinct implementation transcripts' % (60 if quick else 420, 130 if quick else 1500))
@@ -441,7 +493,9 @@ def run(ctx):
         'the conservative stack scan GC_Mark_Stack is replaced in the harness by a scripted word list handed to the real GC_Mark_Item (no source edit); '
         'objects of the probe type hold no pointers, so GC_Recurse adds no marks',
         'double arithmetic of GC_Ideal_Size modelled as floor((n+1)*10/9)',
-        'allocator contract (hypothesis of the theorems, rule of the generator): GC_Set is never handed an address that is still registered or pending']
+        'allocator contract (hypothesis of the theorems, rule of the generator): GC_Set is never handed an address that is still registered or pending',
+        'a destructor that allocates OUTSIDE a sweep and crosses the threshold starts a nested collection in the C code: outside the model (flagged, '
+        'compared by the oracle only)']
     ctx.coq()
     drv = ctx.build_driver('Registry')
     h = ctx.build_harness('gcreg_wb.c', whitebox='GC')
@@ -519,7 +573,7 @@ def run(ctx):
         for i in range(0, len(ex), 2000):
             d.feed(ex[i:i + 2000])
         ctx.cov['exhaustive'] = ('all %d admissible sequences of <= %d operations over {a0,a1,a2,A1,d0,d1,d2,c} x stack words {none, 0, all} '
-                                 'x 2 address patterns x 2 ownership relations' % (len(ex), 3 if quick else 4))
+                                 'x 2 address patterns x 3 destructor behaviours (none, deleting, allocating)' % (len(ex), 3 if quick else 4))
 
     def extra(dd):
         dd.feed([gen_case(ctx.rng, 60, 20, base) for _ in range(10 * min(n, 2000))])
